@@ -8,8 +8,10 @@ REPO = os.environ.get("VERIF_REPO", "/repo")
 BUILD = os.path.join(VERIF, "build")
 LEAN = os.path.join(VERIF, "lean")
 HARNESS = os.path.join(VERIF, "harness")
-REPLAY = os.path.join(VERIF, "replay")
-EVIDENCE = os.path.join(VERIF, "evidence")
+# runs against a seeded change (tools/seeded.py) write their replay and evidence files elsewhere
+_OUT = os.environ.get("VERIF_OUT_DIR")
+REPLAY = os.path.join(_OUT, "replay") if _OUT else os.path.join(VERIF, "replay")
+EVIDENCE = os.path.join(_OUT, "evidence") if _OUT else os.path.join(VERIF, "evidence")
 PESTMODEL = os.path.join(LEAN, ".lake", "build", "bin", "pestmodel")
 ALLOWED_AXIOMS = {"propext", "Classical.choice", "Quot.sound"}
 FORBIDDEN = re.compile(r"\bsorry\b|\badmit\b|^\s*axiom\s|native_decide|bv_decide|implemented_by|\bunsafe\s|maxHeartbeats\s+0\b")
@@ -444,9 +446,11 @@ def setup():
     if not ok:
         log("setup: lake build failed (checks will report it)")
     bins = sorted(os.path.basename(p)[:-3] for p in glob.glob(os.path.join(HARNESS, "src", "bin", "*.rs")))
-    ok2, out2, _, _ = cargo_build("default", bins)
+    ok2, out2, _, _ = cargo_build("default", [b for b in bins if b != "drv_dbg"])
     log(out2[-2000:])
-    return 0 if ok and ok2 else 1
+    ok3, out3, _, _ = cargo_build("dbg", ["drv_dbg"])
+    log(out3[-1000:])
+    return 0 if ok and ok2 and ok3 else 1
 
 
 def level_of(prop):
